@@ -108,7 +108,7 @@ class _(_Surgery):
 
 # ------------------------------------------------------------------------------------------------ closures
 def _closure(ex, E, name):
-    return ex.L.rtc(E, name)
+    return ex.closure(E, name)
 
 
 def _acyclic(ex, g):
